@@ -745,6 +745,10 @@ func genPointIndex(repo string) (string, error) {
 			return "", err
 		}
 	}
+	// FromTileMatrixSet: the expression of the deepest resolution
+	if err := g.deepestRes(); err != nil {
+		return "", err
+	}
 	// InsertPoint / InsertCoord: the coordinate expressions and the range test
 	if err := g.insertParts(); err != nil {
 		return "", err
@@ -798,4 +802,37 @@ func (g *g2) insertParts() error {
 		}
 	}
 	return fmt.Errorf("InsertCoord: range test not found")
+}
+
+// deepestRes extracts `deepestRes: <expr>` from the PointIndex literal in FromTileMatrixSet.
+func (g *g2) deepestRes() error {
+	fd, ok := g.funcs["FromTileMatrixSet"]
+	if !ok {
+		return fmt.Errorf("FromTileMatrixSet not found")
+	}
+	env := &g2env{vars: map[string]gty{"intExtent": tyExtent, "deepestSize": tyZ, "deepestLevel": tyZ}}
+	var found string
+	var ferr error
+	ast.Inspect(fd, func(n ast.Node) bool {
+		kv, ok := n.(*ast.KeyValueExpr)
+		if !ok {
+			return true
+		}
+		if id, ok := kv.Key.(*ast.Ident); ok && id.Name == "deepestRes" {
+			e, _, err := g.expr(env, kv.Value)
+			if err != nil {
+				ferr = err
+			}
+			found = e
+		}
+		return true
+	})
+	if ferr != nil {
+		return fmt.Errorf("FromTileMatrixSet deepestRes: %v", ferr)
+	}
+	if found == "" {
+		return fmt.Errorf("FromTileMatrixSet: deepestRes not found")
+	}
+	fmt.Fprintf(&g.out, "(* FromTileMatrixSet: deepestRes *)\nDefinition gen_deepestRes (v_intExtent : gen_extent) (v_deepestSize : Z) : Z :=\n  %s.\n\n", found)
+	return nil
 }
